@@ -45,6 +45,11 @@ Matches(c, s, evw, idseq, seen) ==
           /\ evw[i][3] = TRUE
           /\ x.kind = "formerr" => evw[i][2] = 1
 
+\* a failing accept() leaves no trace either (the server tasks stay alive)
+T_AcceptErr ==
+  /\ IsEv("accepterr") /\ E.alive = TRUE
+  /\ UNCHANGED <<cn, rx, ids, nw, lostn>>
+
 \* a failed connection setup leaves no trace in the server
 T_OpenFail ==
   /\ IsEv("openfail") /\ E.alive = TRUE /\ E.cl = TRUE
@@ -93,7 +98,7 @@ T_Dgram ==
         /\ d.sent[1].kind = "formerr" => E.w[1][2] = 1
   /\ UNCHANGED <<cn, rx, ids, nw, lostn>>
 
-TNext == T_Open \/ T_OpenFail \/ T_Chunk \/ T_Abort \/ T_Dgram
+TNext == T_Open \/ T_OpenFail \/ T_AcceptErr \/ T_Chunk \/ T_Abort \/ T_Dgram
 TSpec == TInit /\ [][TNext]_tvars
 
 ConnInvariants == \A c \in DOMAIN cn : EachOnce(cn[c]) /\ IdPreserved(cn[c]) /\ QueueBounded(cn[c])
